@@ -386,6 +386,12 @@ func (g *Gen) parseGrid(share float64) {
 		if extra > 0 {
 			d += g.digitsStr(extra)
 		}
+		if extra >= 5 && len(d) < 46 {
+			// drawn digits up to 36..46 in all after a prefix of the word: the accumulator passes the word boundary in the
+			// middle of a long literal, by one digit or by a pair of digits
+			d = d[:min(len(d), 19+g.r.Intn(8))]
+			d += g.digitsStr(36 + g.r.Intn(11) - len(d))
+		}
 		g.parseAllVias(g.literalOf(d), true)
 	})
 }
